@@ -316,7 +316,17 @@ func checkC14(c *km.Ctx) {
 		}}
 		notLocked := km.Prim{Name: "not locked out", Direct: func(f km.Fact) bool {
 			cl, ok := f.X.(*ssa.Call)
-			return f.Op == token.ILLEGAL && !f.Pol && ok && km.CalleeFull(cl.Common()) == "(time.Time).After" && mentionsField(cl.Common().Args[0], "lockoutExpirationTime")
+			if f.Op != token.ILLEGAL || f.Pol || !ok {
+				return false
+			}
+			if km.CalleeFull(cl.Common()) == "(time.Time).After" && mentionsField(cl.Common().Args[0], "lockoutExpirationTime") {
+				return true
+			}
+			// a method of the record: lockedOut(now)
+			if a, isAfter := km.SymOf(cl).IsCall("(time.Time).After"); isAfter && len(a) == 2 && a[0].Op == "field" && a[0].Name == "lockoutExpirationTime" {
+				return true
+			}
+			return false
 		}}
 		for _, ci := range km.CallsIn(vt) {
 			n := km.CalleeFull(ci.Common())
@@ -350,12 +360,10 @@ func checkC14(c *km.Ctx) {
 		r.Add("R-C14-4", km.FuncName(vt), "result of "+short(n)+" on the rate-limit record", posOf(c, cl), "the computed time is used (stored / compared), never discarded", sprintf("referrers=%d", lenRef(cl)), used)
 	})
 	// (b) failure path: increment, lock-out, write back under the mutex
-	var incr, lockSet *ssa.Store
-	km.Instrs(vt, func(in ssa.Instruction) {
-		st, ok := in.(*ssa.Store)
-		if !ok {
-			return
-		}
+	// the stores may sit in validateUserTOTP or in a method of the record it calls with the record's address
+	// (recordFailure(now)); for ordering, a store inside a method counts at the call
+	var incr, lockSet ssa.Instruction
+	judgeStore := func(st *ssa.Store, at ssa.Instruction, callee *ssa.Function, call ssa.CallInstruction) {
 		fa, ok := st.Addr.(*ssa.FieldAddr)
 		if !ok || km.NamedTypeOf(fa.X.Type()) != rateInfoT {
 			return
@@ -364,22 +372,58 @@ func checkC14(c *km.Ctx) {
 		case "failCount":
 			if b, ok := km.Unwrap(st.Val).(*ssa.BinOp); ok && b.Op == token.ADD {
 				if one, isC := km.ConstInt(b.Y); isC && one == 1 {
-					incr = st
+					incr = at
 				}
 			}
 		case "lockoutExpirationTime":
+			good := false
 			if add, ok := isCall(st.Val, "(time.Time).Add"); ok {
 				if _, ok := isCall(add.Common().Args[0], "time.Now"); ok && positiveDuration(add.Common().Args[1]) {
-					// under failCount % K == 0
-					for _, f := range controllingFacts(c, st.Block()) {
-						if f.Op == token.EQL {
-							if m, ok := f.X.(*ssa.BinOp); ok && m.Op == token.REM {
-								lockSet = st
-							}
+					good = true
+				} else if call != nil {
+					// now handed in by the caller
+					if a, isAdd := km.SymAtCall(st.Val, callee, call).IsCall("(time.Time).Add"); isAdd && len(a) == 2 {
+						if n, isNow := a[0].IsCall("time.Now"); isNow && len(n) == 0 && positiveDuration(add.Common().Args[1]) {
+							good = true
 						}
 					}
 				}
 			}
+			if good {
+				// under failCount % K == 0
+				for _, f := range controllingFacts(c, st.Block()) {
+					if f.Op == token.EQL {
+						if m, ok := f.X.(*ssa.BinOp); ok && m.Op == token.REM {
+							lockSet = at
+						}
+					}
+				}
+			}
+		}
+	}
+	km.Instrs(vt, func(in ssa.Instruction) {
+		switch x := in.(type) {
+		case *ssa.Store:
+			judgeStore(x, x, nil, nil)
+		case ssa.CallInstruction:
+			g := km.StaticCallee(x.Common())
+			if g == nil || g.Blocks == nil || !c.InModule(g) {
+				return
+			}
+			takesRecord := false
+			for _, a := range km.CallArgs(x.Common()) {
+				if p, isP := a.Type().Underlying().(*types.Pointer); isP && km.NamedTypeOf(p.Elem()) == rateInfoT {
+					takesRecord = true
+				}
+			}
+			if !takesRecord {
+				return
+			}
+			km.Instrs(g, func(i2 ssa.Instruction) {
+				if st, isSt := i2.(*ssa.Store); isSt {
+					judgeStore(st, in, g, x)
+				}
+			})
 		}
 	})
 	r.Add("R-C14-4", km.FuncName(vt), "failure counter incremented", posRef(c, incr, vt), "failCount = failCount + 1 on the failed-validation path", sprintf("%v", incr != nil), incr != nil)
@@ -388,7 +432,7 @@ func checkC14(c *km.Ctx) {
 		// after the increment every return is preceded by a map update under the mutex
 		okBack := true
 		for _, rc := range s.RetCases(vt) {
-			if !incr.Block().Dominates(rc.Ret.Block()) {
+			if !km.InstrDominates(incr, rc.Ret) {
 				continue
 			}
 			wrote := false
@@ -480,7 +524,7 @@ func lenRef(v ssa.Value) int {
 	return len(*v.Referrers())
 }
 
-func posRef(c *km.Ctx, st *ssa.Store, fn *ssa.Function) string {
+func posRef(c *km.Ctx, st ssa.Instruction, fn *ssa.Function) string {
 	if st != nil {
 		return posOf(c, st)
 	}
@@ -634,6 +678,54 @@ func constFloat(v ssa.Value) (float64, bool) {
 
 // spacingTest recognises the 'too soon' condition (true edge = too soon) and returns the constant.
 func spacingTest(cond ssa.Value) (int64, bool) {
+	if d, ok := spacingTestDirect(cond); ok {
+		return d, true
+	}
+	// through a method of the record (checkedWithin(interval, now) and the like)
+	if _, isCall := cond.(*ssa.Call); isCall {
+		if d, _, ok := symSpacing(km.SymOf(cond)); ok {
+			return d, true
+		}
+	}
+	return 0, false
+}
+
+// symSpacing: the too-soon condition on a symbolic value; returns the constant and the record the last-check time
+// was read from.
+func symSpacing(sy *km.Sym) (int64, *km.Sym, bool) {
+	lastCheckOf := func(x *km.Sym) (*km.Sym, bool) {
+		if x != nil && x.Op == "field" && x.Name == "lastCheckTime" {
+			return x.Args[0], true
+		}
+		return nil, false
+	}
+	if a, ok := sy.IsCall("(time.Time).After"); ok && len(a) == 2 {
+		if ad, ok := a[0].IsCall("(time.Time).Add"); ok && len(ad) == 2 {
+			if b, ok := lastCheckOf(ad[0]); ok {
+				if d, isC := ad[1].ConstInt(); isC {
+					return d, b, true
+				}
+			}
+		}
+	}
+	if sy != nil && sy.Op == "binop" && (sy.Name == "<" || sy.Name == "<=") {
+		if d, isC := sy.Args[1].ConstInt(); isC {
+			if a, ok := sy.Args[0].IsCall("(time.Time).Sub"); ok && len(a) == 2 {
+				if b, ok := lastCheckOf(a[1]); ok {
+					return d, b, true
+				}
+			}
+			if a, ok := sy.Args[0].IsCall("time.Since"); ok && len(a) == 1 {
+				if b, ok := lastCheckOf(a[0]); ok {
+					return d, b, true
+				}
+			}
+		}
+	}
+	return 0, nil, false
+}
+
+func spacingTestDirect(cond ssa.Value) (int64, bool) {
 	// lastCheckTime.Add(D).After(time.Now())
 	if cl, ok := cond.(*ssa.Call); ok && km.CalleeFull(cl.Common()) == "(time.Time).After" {
 		if add, ok := isCall(cl.Common().Args[0], "(time.Time).Add"); ok && mentionsField(add.Common().Args[0], "lastCheckTime") {
@@ -675,6 +767,13 @@ func spacingTestFact(f km.Fact) (int64, bool) {
 }
 
 func spacingOperandBase(cond ssa.Value) (ssa.Value, bool) {
+	if _, isCall := cond.(*ssa.Call); isCall {
+		if _, okD := spacingTestDirect(cond); !okD {
+			if _, b, ok := symSpacing(km.SymOf(cond)); ok && b != nil && b.Op == "val" {
+				return b.Val, true
+			}
+		}
+	}
 	var last ssa.Value
 	if cl, ok := cond.(*ssa.Call); ok && km.CalleeFull(cl.Common()) == "(time.Time).After" {
 		if add, ok := isCall(cl.Common().Args[0], "(time.Time).Add"); ok {
